@@ -12,7 +12,7 @@ META = dict(
               "notification queue (C12) and l2cap_output; theorems about the sorted list (permutation, positions) and the "
               "output step; monitor keeping the requested set, the CCCD bits each connection wrote and the current values; "
               "tie: generated server<> instantiations with 1/4/5/9 CCCDs with and without outgoing priorities, 3 connections",
-    level_note="see docs/C10.md")
+    level_note="proved: by value / by uuid requests queue the sorted position of the requested characteristic; transmitted PDU = handle + current bytes, only with the CCCD bit; for every configuration without an empty service the attribute read is the characteristic's own value attribute and the tested store position is its CCCD's. Refuted: the same with an empty service (known finding). NOT proved: trace level statement C10_monitor_accepts_model_full (Definition). See docs/C10.md")
 
 
 class C10(AttBase):
